@@ -26,10 +26,49 @@ def jobs(tier):
     ]
 
 
+def fresh_solo_tables():
+    """two fresh interpreter processes compute the reference table of API-HISTORY in opposite pool
+    orders; they must agree (else some result depends on what was parsed before) and the forward one
+    is handed to the harness"""
+    import json, os, subprocess, tempfile, time
+    from ..core import Result, HOLDS, VIOLATED, INCONCLUSIVE, VERIF
+    from ..e1 import PY
+    t = time.time()
+    tabs = []
+    repo = os.environ.get("VQ_REPO")
+    env = dict(os.environ, PYTHONPATH=(repo + os.pathsep if repo else "") + VERIF, PYTHONWARNINGS="ignore")
+    env.pop("VQ_SOLO", None)
+    env["VQ_SOLO_CHILD"] = "1"
+    for rev in (False, True):
+        p = subprocess.run([PY, "-c", "import json, vq.harness.h_pure as P; print('TABLE' + json.dumps(P.solo_table(%r)))" % rev],
+                           env=env, capture_output=True, text=True, cwd=VERIF)
+        line = [l for l in p.stdout.split("\n") if l.startswith("TABLE")]
+        if not line:
+            return None, Result("C12.SOLO-ORDER", "ground", INCONCLUSIVE, detail="reference table could not be computed: " + p.stderr[-300:])
+        tabs.append(json.loads(line[0][5:]))
+    diff = [k for k in tabs[0] if tabs[0][k] != tabs[1][k]]
+    fd, path = tempfile.mkstemp(prefix="vq-solo-", suffix=".json")
+    with os.fdopen(fd, "w") as f:
+        json.dump(tabs[0], f)
+    # a key's first occurrence in a fresh process: forward table for the first pool entries, reverse table for the last
+    res = Result("C12.SOLO-ORDER", "ground", HOLDS if not diff else VIOLATED, seconds=time.time() - t,
+                 bounds="{} (text, reference time, latent, depth) combinations, each computed in two fresh processes in opposite orders".format(len(tabs[0])),
+                 detail="identical" if not diff else "result for %s depends on the calls made before it: %r vs %r" % (diff[0], tabs[0][diff[0]], tabs[1][diff[0]]),
+                 functions=["ctparse.ctparse (real, fresh processes)"], replay=None if not diff else {"kernel": "reproduced", "key": diff[0]})
+    return path, res
+
+
 def run(tier, t0, only=None):
+    import os
     res, info = run_wf("C12", tier, only=only)
+    path, solo = fresh_solo_tables()
+    if path:
+        os.environ["VQ_SOLO"] = path
+    res.append(solo)
     js = [j for j in jobs(tier) if not only or only in j.name]
     res += run_jobs(js)
+    if path:
+        os.remove(path)
     return finish(
         "C12", tier, res, t0,
         assumptions=["single interpreter thread"],
